@@ -1,6 +1,7 @@
 (* C17 — the protocol theorems, from [frontend_ok fe] (Properties/C17.v only restates them). *)
 From NDN Require Import Base.Prelude Model.TlvVar Model.Name Model.Tlv Model.NfdMgmt Model.Registerer Spec.Registration.
-From NDN Require Import Proofs.RegistererBase Proofs.RegistererInv Proofs.RegistererAuto Proofs.RegSpecMeaning.
+From NDN Require Import Proofs.RegistererBase Proofs.RegistererInv Proofs.RegistererAuto Proofs.RegSpecMeaning
+  Proofs.RegSpecPercall Proofs.RegistererLive.
 From Coq Require Import Sorting.Sorted.
 Local Open Scope N_scope.
 
@@ -42,6 +43,24 @@ Section Main.
 
   Theorem main_percall evs : percall_ok (log (run_events fe clock evs)) = true.
   Proof. exact (run_percall fe clock va fe_all_ok fe_va evs). Qed.
+
+  Theorem main_percall_meaning evs :
+    let l := log (run_events fe clock evs) in
+    NoDup (map m_call (sends l)) /\
+    (forall c, In c (sends l) -> exists a, In (OCall (m_call c) (m_kind c) (m_prefix c) a) l) /\
+    (forall l1 id r o l2, l = l1 ++ ODone id r o :: l2 -> exists c, In c (sends l1) /\ m_call c = id).
+  Proof. exact (percall_ok_meaning _ (main_percall evs)). Qed.
+
+  (* progress of the wait loop (front-ends that use it): a sleeping semaphore holder sends within l+1 ticks *)
+  Theorem main_holder_sends evs l id :
+    (forall k, exists n, p_ts (fe k) = TsLoop n true) ->
+    status (run_events fe clock evs) id = Some (CSleep l) ->
+    exists n, (n <= S l)%nat /\
+              status (fold_left (step fe clock) (repeat ETick n) (run_events fe clock evs)) id = Some COut.
+  Proof.
+    intros Hloop. apply (holder_sends_within fe clock va fe_all_ok fe_va Hloop).
+    exact (run_inv fe clock va fe_all_ok fe_va evs).
+  Qed.
 
   Theorem main_autoreg evs : autoreg_ok (log (run_events fe clock evs)) = true.
   Proof. exact (run_autoreg fe clock fe_all_ok evs). Qed.
